@@ -154,7 +154,10 @@ func sepOr(s string) string {
 func mutate(r *core.Rand, src string) (string, []string) {
 	lead, toks := chunk(src)
 	var ops []string
-	nm := 1 + r.Intn(3)
+	nm := 1
+	if r.Chance(2, 5) {
+		nm = 2 + r.Intn(2)
+	}
 	for m := 0; m < nm; m++ {
 		if len(toks) == 0 {
 			toks = append(toks, tok{fillers[r.Intn(len(fillers))], " "})
